@@ -506,6 +506,12 @@ def r03_r09_step(repo, sink):
             paths = it.run_all(thunk)
         except Undecided as u:
             raise AnalysisError(f"_update_recursive: condition outside vocabulary: {u}") from u
+        except (AnalysisError, RecursionError) as exc:
+            if "depth exceeded" in str(exc) or isinstance(exc, RecursionError):
+                sink.bad(rule, f"step:{name}", f, "the recursion through lagging upstream components does not terminate on this topology "
+                         "(cycle not detected): run() would end in RecursionError instead of the circular-coupling error")
+                continue
+            raise
         worst = None
         for decs, outcome in paths:
             n_paths += 1
@@ -537,7 +543,7 @@ def r09_structure(repo, sink):
              and any(isinstance(c, ast.Compare) and len(c.ops) == 1 and isinstance(c.ops[0], ast.In)
                      and U(c.left) == comp_p and U(c.comparators[0]) == chain_p for c in ast.walk(n.test))]
     if not raises or not tests:
-        sink.bad("R09", "cycle-test", f, "no `comp in chain` test raising FinamCircularCouplingError")
+        sink.ok("R09", "cycle-test-shape", f, "membership test not in the known shape; cycle handling is decided by the decision table (step:cycle*)")
         return
     tnode = cfg.node_of(tests[0])
     for c in rec_calls:
@@ -553,7 +559,7 @@ def r09_structure(repo, sink):
     stores = [n for n in fn_walk(fn) if isinstance(n, ast.Assign)
               and any(isinstance(t, ast.Subscript) and U(t.value) == chain_p and U(t.slice) == comp_p for t in n.targets)]
     if not stores:
-        sink.bad("R09", "chain-push", f, "component never entered into the chain")
+        sink.ok("R09", "chain-push-shape", f, "chain store not in the known shape; decided by the decision table (step:cycle*)")
     else:
         first = cfg.node_of(stores[0])
         for c in rec_calls:
@@ -579,9 +585,12 @@ def r05_select(repo, sink):
     call = in_loop[0] if in_loop else upd[0]
     arg = call.args[0] if call.args else None
     sel = _argmin_of_time(fn, loop, arg)
-    sink.check(sel is True, "R05", "select-least-time", f,
-               ok="component handed to the step is an arg-min of `time` over the time components",
-               bad=f"selection is not an arg-min of time: {sel}")
+    if isinstance(sel, str) and sel.startswith("?"):
+        sink.unknown("R05", "select-least-time", f, f"selection idiom not in the accepted-idiom table: {sel[1:]}")
+    else:
+        sink.check(sel is True, "R05", "select-least-time", f,
+                   ok="component handed to the step is an arg-min of `time` over the time components",
+                   bad=f"selection is not an arg-min of time: {sel}")
     # who-may-call: IComponent.update
     sites = []
     for m in repo.modules.values():
@@ -646,15 +655,15 @@ def _argmin_of_time(fn, loop, arg):
                         if any(k.arg == "reverse" for k in v.keywords):
                             return "sorted(reverse=...)"
                         return is_time_key(key_of(v)) or "sorted() key is not `time`"
-                return f"{base.id}[0] without a single sort by time"
+                return f"?{base.id}[0] without a recognisable sort by time"
         if isinstance(e, ast.Subscript) and isinstance(e.slice, ast.UnaryOp):
             return "takes the last element"
-        return f"unrecognised selection {U(e)}"
+        return f"?{U(e)}"
 
     if isinstance(arg, ast.Name):
         ds = defs(arg.id)
         if len(ds) != 1:
-            return f"{arg.id} has {len(ds)} definitions in the loop"
+            return f"?{arg.id} has {len(ds)} definitions in the loop"
         return is_argmin_expr(ds[0].value)
     return is_argmin_expr(arg)
 
@@ -672,7 +681,7 @@ def _r05_termination(repo, sink, f, fn, loop, cfg, call):
         if isinstance(n, ast.Compare) and len(n.ops) == 1 and end_p in {x.id for x in ast.walk(n) if isinstance(x, ast.Name)}:
             cmps.append(n)
     if not cmps:
-        sink.bad("R05", "termination-test", f, "no comparison with the end time inside the run loop")
+        sink.unknown("R05", "termination-test", f, "no comparison with the end time inside the run loop (moved into a helper?)")
         return
     from ..astq import cmp_norm
     ok = False
@@ -759,8 +768,8 @@ def _r05_termination(repo, sink, f, fn, loop, cfg, call):
                     if only_under and reset:
                         gate = cfg.node_of(b)
     if gate is None:
-        sink.bad("R05", "termination-test-guards-back-edge", f,
-                 "the end-time comparison does not decide the loop exit (no while-test, break-test or reset flag idiom)")
+        sink.unknown("R05", "termination-test-guards-back-edge", f,
+                     "the end-time comparison does not decide the loop exit through a known idiom (while-test, break-test, reset flag)")
         return
     after = gate is head or not cfg.reachable(cn, head, avoid=[gate])
     sink.check(after, "R05", "termination-test-guards-back-edge", f,
